@@ -65,6 +65,10 @@ CLAIMED = {
   "Deductive proof of totality and progress of the lexer: for every source string, next() and every scanning helper it reaches (read, peek, match, matchOneOf, matchWhile, matchWithUnderscores, matchIdentTail, nonWhiteRemaining, whitespace, lineComment, spanComment, rawString, quotedString, doesc, number, identifier, Next) never index or slice out of range (527 obligations), keep 0 <= position <= len(source), report Item.Pos = starting position, return Eof exactly when called at the end of the source and otherwise strictly advance the position - so token positions strictly increase and scanning terminates; every loop has a proved variant.",
   "Function-valued parameters (IsDigit, IsHexDigit, isIdentChar) are modelled as pure predicates that are false for 0 and each call site is obliged to pass such a function; the lexer's keyword callback and intern.String/strings.ReplaceAll are assumed effect-free. Sources are assumed shorter than 2^31 bytes (Item.Pos is int32). NOT covered: the parser (recursive descent reporting errors by panic), the 'tokens tile the source' text equality for processed tokens, Ahead/AheadSkip buffering.",
   "DESIGN.md §4 C32"),
+ "C42": (
+  "Deductive proof of builtin.Transaction with panics modelled as control flow (the block is Thread.Call, which may return or panic with any value; the deferred function runs on every exit with recover() live): on a normal return of the block form the transaction is ended and Transaction itself did not roll it back; a panic never turns into a normal return (the exception still propagates); when the block threw a value other than BlockReturn the transaction is ended and was not completed by Transaction; when it threw BlockReturn it was not rolled back by Transaction; after ANY exit by panic once the transaction object exists it is ended - including the paths on which Complete or Rollback themselves fail. core.SuTran.Complete/Rollback/Ended are proved against the status field (normal exit: completed / aborted; exit by panic: aborted / not active).",
+  "Assumed: Thread.Call (the interpreter running the block) may modify anything, returns or panics, and records in ghost variables whether it panicked and whether with BlockReturn; ITran.Complete/Abort and IDbms.Transaction are effect-free as far as this model goes (what the database does is C01/C03 territory); NewSuTran binds the ghost reference to the new transaction object (modelling device, assumed). Counting is by ghost counters of the Complete/Rollback calls made by Transaction itself (calls inside the block are behind Thread.Call). 'Completed exactly when...' is therefore: ended on every exit + the right one of Complete/Rollback attempted; that a successful Complete commits is the dbms's business. Contract mode nosafety (argument indexing). The other block forms (tran.Query block, Cursor) are not covered.",
+  "DESIGN.md §0.3 C42"),
  "C05": (
   "Deductive proof about repair.search, the function that picks the state a damaged database is cut back to: for every sequence of state offsets the scanner can deliver (modelled by an uninterpreted sequence scanOff(k) handed out incrementally, never shrinking) and every outcome of the per-state check (uninterpreted predicate goodAt), search never indexes outside the offsets found - also when there are none - , returns (0,0,nil) when nothing is good, and otherwise returns a state that passed the check together with its own offset, whose more recent neighbour was checked and is bad (the result of the exponential + binary search under the documented assumption that good and bad states are not interleaved); both loops have invariants, the binary search a variant, no arithmetic overflow (skip doubling).",
   "Scope: the selection logic of search only. The scanner goroutine, getUpTo's locking, check/checkState (checksum verification of metadata, btree nodes and records), fix/truncate, readTail and MmapStor's trailing zero stripping are assumed or not covered; crash points and file contents are not enumerated (the property's quantifier over crash points is not expressible as a contract). The deferred scnr.close() is executed at normal exits only. One genuine defect found by the bounds obligation was fixed (Repair crashed with index out of range [-1] on a file without any state).",
